@@ -39,49 +39,53 @@ def members(enum_cls):
 
 # ---- ghost state (symbolic runs only; natively these are never reached because assumed/callee-only contracts are not
 # ---- executed in replays) ----------------------------------------------------------------------------------------
+class SymbolicOnly(RuntimeError):
+    """a ghost construct that exists in symbolic runs only was reached in a native run: the clause cannot be evaluated natively"""
+
+
 def havoc_bool(name):
-    raise RuntimeError('havoc_* is only meaningful in symbolic runs')
+    raise SymbolicOnly('havoc_* is only meaningful in symbolic runs')
 
 
 def havoc_enum(name, cls):
-    raise RuntimeError('havoc_* is only meaningful in symbolic runs')
+    raise SymbolicOnly('havoc_* is only meaningful in symbolic runs')
 
 
 def havoc_int(name):
-    raise RuntimeError('havoc_* is only meaningful in symbolic runs')
+    raise SymbolicOnly('havoc_* is only meaningful in symbolic runs')
 
 
 def havoc_str(name):
-    raise RuntimeError('havoc_* is only meaningful in symbolic runs')
+    raise SymbolicOnly('havoc_* is only meaningful in symbolic runs')
 
 
 def ghost_set(key, value):
-    raise RuntimeError('ghost state is only meaningful in symbolic runs')
+    raise SymbolicOnly('ghost state is only meaningful in symbolic runs')
 
 
 def ghost_get(key, default=None):
-    raise RuntimeError('ghost state is only meaningful in symbolic runs')
+    raise SymbolicOnly('ghost state is only meaningful in symbolic runs')
 
 
 def symbolic_run():
     return False
 
 
-def uf_str(name, arg):
-    raise RuntimeError('uninterpreted functions exist in symbolic runs only (guard with symbolic_run())')
+def uf_str(name, *args):
+    raise SymbolicOnly('uninterpreted functions exist in symbolic runs only (guard with symbolic_run())')
 
 
 def uf_bool(name, *args):
-    raise RuntimeError('uninterpreted functions exist in symbolic runs only (guard with symbolic_run())')
+    raise SymbolicOnly('uninterpreted functions exist in symbolic runs only (guard with symbolic_run())')
 
 
 def uf_enum(name, cls, arg):
-    raise RuntimeError('uninterpreted functions exist in symbolic runs only (guard with symbolic_run())')
+    raise SymbolicOnly('uninterpreted functions exist in symbolic runs only (guard with symbolic_run())')
 
 
 def opaque(tag, *deps):
-    raise RuntimeError('opaque values exist in symbolic runs only')
+    raise SymbolicOnly('opaque values exist in symbolic runs only')
 
 
 def ghost_events():
-    raise RuntimeError('the ghost event trace exists in symbolic runs only')
+    raise SymbolicOnly('the ghost event trace exists in symbolic runs only')
